@@ -50,7 +50,7 @@ CHECKS = {
           "and net block runs exactly once, writers precede readers of overlapping bits (directly and through connections), no block reads "
           "a bit that is still stale in a second evaluation, explicit constraints are respected, and rings of 2-4 signal-free constraints must "
           "be rejected by every pass.",
-          "Read/write sets are a static over-approximation from the IR; CL/method-port constraints are not generated in this version.",
+          "Read/write sets are a static over-approximation from the IR. A second family covers CL/FL: update_once blocks calling non-blocking and blocking methods under M<M, U<M, M<U, U<U constraints and wire dependencies (self-logging blocks; HeuristicTopoPass is skipped for FL, it raises KeyError on greenlet-wrapped blocks).",
           "DESIGN.md 3/C02"),
   "C11": ("exploration",
           "property-based testing (Hypothesis): template-generated cyclic designs classified by brute force with the reference evaluator, run under every scheduler",
@@ -116,7 +116,7 @@ CHECKS = {
           "nets, comb/ff/update_once blocks, grandchildren, constants, U-U and WR-U constraints: after every call all name-normalised metadata "
           "equals that of a fresh build, the two simulate identically (and equal the reference when no update_once is present), and no object of a "
           "removed component or '<deleted>' name is reachable from any component's metadata containers.",
-          "Pure RTL designs only (no interfaces / method ports).",
+          "Two families: RTL designs from the E1 grammar (interfaces, lists of components and list positions included) and a CL family with method ports, method nets and block-less constraint owners; designs with update_once are compared mutated-vs-fresh only.",
           "DESIGN.md 3/C15"),
   "C03": ("translation_validation",
           "property-based testing (Hypothesis): differential execution of the emitted SystemVerilog by an independent IEEE-1800 subset interpreter against the PyMTL simulation (and the dataflow reference)",
